@@ -163,7 +163,9 @@ theorem allO : ∀ fuel, AllO fuel := by
       unfold startOpX at h
       try simp only [] at h
       split at h
-      · exact ih.stem _ _ _ _ h hC
+      · split at h
+        · exact ih.fin _ _ _ _ h hC
+        · exact ih.stem _ _ _ _ h hC
       · split at h
         · exact ih.fin _ _ _ _ h hC
         · split at h
